@@ -114,7 +114,6 @@ func exprString(e ast.Node) string {
 	return b.String()
 }
 
-
 func leanBytesList(xs []string) string {
 	q := make([]string, len(xs))
 	for i, x := range xs {
@@ -149,7 +148,7 @@ func firstIfCond(rel, fn string) string {
 		}
 		for _, st := range fl.Body.List {
 			if is, ok := st.(*ast.IfStmt); ok {
-				res = exprString(is.Cond)
+				res = inlineLocals(fl.Body, is.Cond)
 				break
 			}
 		}
